@@ -17,7 +17,8 @@ LEVEL_TEXT = ('Generated NNX object graphs (<= 8 nodes quick, <= 40 thorough; Mo
               'and <= 2 attribute slots per node are enumerated in the thorough tier.'
               ' Graphs also contain namedtuple / OrderedDict containers, numpy-backed values and mutable metadata values;'
               ' states are merged / applied in shuffled insertion orders; metadata and buffers of clones and updated'
-              ' graphs are poisoned.')
+              ' graphs are poisoned.'
+              ' Round f: a rejected pop leaves the canonical form unchanged (F64).')
 LEVEL_NOTE = ('Plain list/tuple/dict containers have value semantics in graph.flatten by design, so identity preservation is demanded for '
               'Modules and Variables only. Dicts with mixed-type keys and cycles passing only through plain containers are not generated.')
 TECHNIQUE = 'runtime monitoring: canonical-form isomorphism oracle + shadow graph + flatten/unflatten invariant hooks on the real graph functions'
